@@ -38,7 +38,10 @@ def spellings(rel):
         out |= {d, d + "/", "/" + d + "/", d + "/."}
     if rel == "index.gmi":
         out |= {"/", ""}
-    return sorted(o.replace(" ", "%20") for o in out)
+    enc = {o.replace(" ", "%20") for o in out}
+    # spellings that do NOT denote the file under RFC 3986 (form-encoding '+', double encoding): they must not be served from it
+    enc |= {o.replace(" ", "+") for o in out if " " in o} | {o.replace(" ", "%2520") for o in out if " " in o}
+    return sorted(enc)
 
 
 def first_covering(rules, loc):
@@ -68,6 +71,8 @@ RULESETS = [
     [CertificateAuthPathRule("/admin/", require_cert=False, allowed_fingerprints=set())],
     [CertificateAuthPathRule("/admin/", require_cert=False, allowed_fingerprints=[])],
     [CertificateAuthPathRule("/a b/", require_cert=True)],
+    [CertificateAuthPathRule("/a%20b/", require_cert=True)],
+    [CertificateAuthPathRule("/a+b/", require_cert=True)],
     [CertificateAuthPathRule("/", require_cert=True, allowed_fingerprints={FP_OK})],
 ]
 
